@@ -5,6 +5,7 @@ import (
 	"encoding/binary"
 	"encoding/hex"
 	"fmt"
+	"io"
 	"os"
 	"sync/atomic"
 
@@ -226,7 +227,9 @@ func (mdb *MassDBV1) plotWork(cache *MemCache) error {
 		bufRdA := bufio.NewReaderSize(hmA.data, minMapABufMem)
 
 		for y := pocutil.PoCValue(0); y < half; y++ {
-			bufRdA.Read(bs)
+			if _, err := io.ReadFull(bufRdA, bs); err != nil {
+				return err
+			}
 			x, xp := bs[:recordSize], bs[recordSize:]
 			if !bytesEqualZero(x) && !bytesEqualZero(xp) {
 				z := pocutil.FB(x, xp, bl, pkHash)
